@@ -41,6 +41,9 @@ type VerifDurability interface {
 	SubmitReplica(ch.NodeID, VerifProposal) VerifCompletion
 	// SubmitDeferred is post-quorum trailing convergence (completion ignored by the round).
 	SubmitDeferred(ch.NodeID, VerifProposal)
+	// HedgeDelay is what replicaHedgeDelay() answers: <= 0 admits the foreground hedge
+	// follower at once, a long delay never lets the hedge timer fire.
+	HedgeDelay() time.Duration
 }
 
 // VerifRecovery is implemented by the harness: scripted probe / fetch responders.
@@ -83,6 +86,14 @@ func (d *verifDispatcher) submitReplicaDeferred(_ context.Context, voter ch.Node
 	return nil
 }
 
+// hedgedReplicaDispatcher: the hedge follower is an ordinary foreground vote.
+func (d *verifDispatcher) replicaHedgeDelay() time.Duration { return d.dur.HedgeDelay() }
+
+func (d *verifDispatcher) submitReplicaHedged(_ context.Context, voter ch.NodeID, p durableProposal, complete func(durabilityCompletion)) error {
+	complete(verifImportCompletion(d.dur.SubmitReplica(voter, verifExportProposal(p))))
+	return nil
+}
+
 func (d *verifDispatcher) submitRecoveryProbe(_ context.Context, query recoveryProbeQuery, complete func(ProbeResult, error)) error {
 	complete(d.rec.Probe(query.Voter, append([]uint64(nil), query.Indexes...)))
 	return nil
@@ -98,6 +109,7 @@ func (d *verifDispatcher) submitRecoveryFetch(_ context.Context, query recoveryF
 
 var _ durabilityDispatcher = (*verifDispatcher)(nil)
 var _ deferredReplicaDispatcher = (*verifDispatcher)(nil)
+var _ hedgedReplicaDispatcher = (*verifDispatcher)(nil)
 var _ recoveryDispatcher = (*verifDispatcher)(nil)
 
 // VerifQuorumLog wraps the real unexported quorumLog.
@@ -259,3 +271,36 @@ func VerifBarrierCommandID(a Authority) ch.CommandID {
 
 // VerifErrLinkDown is the transport error a scripted-down voter answers with.
 var VerifErrLinkDown = errors.New("verif: peer unreachable")
+
+type verifGoExecutor struct{}
+
+func (verifGoExecutor) Submit(task func()) error { go task(); return nil }
+
+// VerifRepairFollower runs the REAL runtimeRepairOwner.repair (follower gap repair: load the
+// leader frontier, fetch leader pages from needFrom, replicate every proposal to the follower
+// through a real peerBatcher over `link`).  valid=false when the evidence is not a
+// validFollowerRepair or the leader frontier cannot cover it (repair would only wait).
+func VerifRepairFollower(leader ch.NodeID, store ReplicaStore, link PeerLink, key ch.ChannelKey, id ch.ChannelID,
+	follower ch.NodeID, needFrom uint64) (repaired bool, valid bool) {
+	loaded, err := store.Load(context.Background(), LoadBatch{Items: []LoadRequest{{ChannelKey: key, ChannelID: id}}})
+	if err != nil || len(loaded.Items) != 1 || loaded.Items[0].Err != nil {
+		return false, false
+	}
+	state := loaded.Items[0].State
+	repair := followerRepair{channelKey: key, channelID: id, leader: leader, manifest: state.Manifest, follower: follower, needFrom: needFrom}
+	if !validFollowerRepair(repair) || state.LEO < needFrom {
+		return false, false
+	}
+	ctx, cancel := context.WithCancel(context.Background())
+	defer cancel()
+	peers, err := newPeerBatcher(peerBatcherConfig{
+		Link: link, Executor: verifGoExecutor{}, OwnerContext: ctx, ExchangeTimeout: time.Minute,
+		MaxTargetFlight: 2, MaxBatchItems: 4, MaxBatchBytes: 1 << 20,
+		MaxQueuedItems: 64, MaxQueuedBytes: 64 << 20, MaxTargetQueuedItems: 16, MaxTargetQueuedBytes: 16 << 20,
+	})
+	if err != nil {
+		return false, false
+	}
+	owner := &runtimeRepairOwner{ctx: ctx, store: store, peers: peers, timeout: 5 * time.Second, maxPageBytes: 64 << 10}
+	return owner.repair(ctx, repair), true
+}
